@@ -57,19 +57,27 @@ def check_tables(prog: Program, res: Result) -> dict:
     for name in DESCRIPTOR_CLASSES:
         ci = prog.cls(name)
         loc = ci.module.loc(ci.node)
-        if "PERMUTATION_GROUP" not in ci.assigns or "inversion" not in ci.assigns:
-            # inherited from another descriptor class?
+        # the tables as the class sees them: its own body first, then the
+        # classes of its MRO (a shared base of two descriptor classes)
+        def seen(attr):
+            for c in prog.mro(name):
+                k = prog.classes.get(c)
+                if k is not None and attr in k.assigns:
+                    return k, k.assigns[attr]
+            return None, None
+        gci, gnode = seen("PERMUTATION_GROUP")
+        ici, inode = seen("inversion")
+        if gnode is None or inode is None:
             raise AnalysisError(f"{name}: PERMUTATION_GROUP/inversion literal "
-                                "not found in class body")
-        gnode = ci.assigns["PERMUTATION_GROUP"]
+                                "not found in the class or its bases")
         try:
             rows = tuple(tuple(r) for r in const(gnode))
-            inv = const(ci.assigns["inversion"])
+            inv = const(inode)
         except Exception as e:
             raise AnalysisError(f"{name}: table is not a literal ({e})")
         fig = FIGURES[name]
         n = len(fig["points"])
-        gloc = ci.module.loc(gnode)
+        gloc = gci.module.loc(gnode)
         # T-GROUP -----------------------------------------------------------
         good_rows = True
         for r in rows:
@@ -113,7 +121,7 @@ def check_tables(prog: Program, res: Result) -> dict:
         for r in sorted(G & proper):
             res.ok("T-ROT", f"{name} row {r} is a proper rotation", gloc)
         # T-INV -------------------------------------------------------------
-        iloc = ci.module.loc(ci.assigns["inversion"])
+        iloc = ici.module.loc(inode)
         declared = _literal_parities(ci)
         if declared is None:
             res.error(f"{name}: parity domain (Literal[...]) not found in "
